@@ -61,6 +61,7 @@ def one_case(rng, tier):
         return {'kind': 'filenames', 'schedule': sched, 'glob': rng.random() < 0.5, 'poll': 1.0,
                 # how the directory / pattern is spelled: 'dir', 'dir/' (trailing separator), 'dir/*.dat', 'dir/???.dat'
                 'path_form': rng.choice(['dir', 'dir_slash', 'glob', 'glob_q']),
+                'second_watcher': rng.random() < 0.3,
                 'preexisting': rng.randrange(0, 3),
                 # the consumer stops the source while a batch is being delivered and it is started again later
                 'stop_on_delivery': rng.randrange(0, n) if rng.random() < 0.4 else None,
@@ -242,6 +243,21 @@ def check_case(case, counters, sets):
                     src.stop()
                     loop.drive(until_vt=t + 6 * case['poll'] + 1, max_iters=50000)
                     counters['filenames_runs'] = counters.get('filenames_runs', 0) + 1
+                    if case.get('second_watcher'):
+                        # another source over the same paths in the same process: it has emitted nothing yet, so it
+                        # emits every path that exists
+                        got2 = []
+                        src2 = Stream.filenames(pat, poll_interval=case['poll'], asynchronous=True)
+                        src2.sink(lambda x: got2.append(os.path.basename(x)))
+                        src2.start()
+                        loop.drive(until_vt=loop.time() + 2 * case['poll'] + 0.5, max_iters=50000)
+                        src2.stop()
+                        loop.drive(until_vt=loop.time() + case['poll'] + 0.5, max_iters=20000)
+                        on_disk = sorted(os.listdir(tmp))
+                        counters['filenames_second_watchers'] = counters.get('filenames_second_watchers', 0) + 1
+                        if sorted(got2) != on_disk:
+                            add('C17:path-missing@filenames-second-source', 'a second source over the same directory emitted %s; the '
+                                'directory holds %s' % (sorted(got2), on_disk))
                     names = [n for _, n in got]
                     expected = sorted(set(['p%02d.dat' % i for i in range(case['preexisting'])] + [s[1] for s in case['schedule']]))
                     if sorted(names) != expected:
